@@ -317,6 +317,15 @@ def project_files(names, no_find=()):
         e['produced']['exename'] = ['%s.exe.int/plain%d.o' % (n, k), n + '.exe']
         e['touch']['exename'] = ('S', 'plain%d.c' % k,
                                  ['%s.exe.int/plain%d.o' % (n, k), n + '.exe'])
+        # topobj: an object file named N at the top of the build directory, handed to the
+        # linker and to ar as a file argument (no directory part in front of the name)
+        files['tobj%d.c' % k] = 'int t%d;\n' % k
+        L.append('to%d = object_file(%r, file=%r)' % (k, n + '.obj', 'tobj%d.c' % k))
+        L.append('tx%d = executable(%r, files=[%r, to%d])' % (k, 'tx%d' % k, 'plain%d.c' % k, k))
+        L.append('tl%d = static_library(%r, files=[to%d])' % (k, 'tl%d' % k, k))
+        e['produced']['topobj'] = [n + '.obj.o', 'tx%d.int/plain%d.o' % (k, k), 'tx%d' % k,
+                                   'libtl%d.a' % k]
+        e['touch']['topobj'] = ('S', 'tobj%d.c' % k, [n + '.obj.o', 'tx%d' % k, 'libtl%d.a' % k])
         # outdir (directory sentinel)
         L.append("o%d = build_step(%r, cmd=['vrec', '--touch', build_step.output, '--end'], "
                  "files=['data%d.txt'])" % (k, '%s.d/f%d.txt' % (n, k), k))
@@ -341,8 +350,8 @@ def project_files(names, no_find=()):
         L.append("m%d = submodule(%r)" % (k, n + '.sub'))
         e['produced']['subdir'] = ['%s.sub/q%d.txt' % (n, k)]
         e['touch']['subdir'] = ('S', '%s.sub/q%d.in' % (n, k), ['%s.sub/q%d.txt' % (n, k)])
-        L.append("default(e%d, d%d, s%d, c%d, p%d, x%d, o%d, fc%d, m%d['q'])"
-                 % (k, k, k, k, k, k, k, k, k))
+        L.append("default(e%d, d%d, s%d, c%d, p%d, x%d, o%d, fc%d, m%d['q'], tx%d, tl%d)"
+                 % (k, k, k, k, k, k, k, k, k, k, k))
         exp[n] = e
     files['build.bfg'] = "project('c04', find_exclude=['*~'])\n" + '\n'.join(L) + '\n'
     return files, exp
@@ -420,7 +429,7 @@ def run_project(backend, names, res, isolate=True):
                 for pth in produced:
                     if not os.path.lexists(os.path.join(bld, pth)):
                         fail(role, 'not-created', n, path=pth, build_rc=rc,
-                             output=out[-600:] if rc else '')
+                             output=out[-8000:] if rc else '')
                         bad_names.add(n)
                         break
         # look-alike files: everything in the build tree must be modelled
